@@ -163,6 +163,9 @@ def interpStep (op : SrvOp) (i : ISt) (st : String) : ISt × String :=
     if noClient i k then (i, "nc") else
     let i := quiesce cfg { i with s := step cfg i.s (.clientClose k) }
     (i, "ok")
+  | "g" =>
+    -- the client sends the first 7 bytes of a request and nothing else: no complete request ever arrives
+    if noClient i k then (i, "nc") else (i, "ok")
   | "b" =>
     if noClient i k then (i, "nc") else
     let i := quiesce cfg { i with s := step cfg i.s (.clientSend k id .normal), wblocked := k :: i.wblocked,
@@ -189,7 +192,7 @@ def interpStep (op : SrvOp) (i : ISt) (st : String) : ISt × String :=
         | .sweeping _ _ => i := quiesce cfg { i with s := sweep cfg (sweep cfg (step cfg i.s .sdCtxExpire)) }
         | _ => pure ()
         return i
-      (i, match i.s.sd with | .returned .ok => "nil" | .returned .ctxErr => "ctx" | _ => "to")
+      (i, match i.s.sd with | .returned .ok => "nil" | .returned .ctxErr => "ctx" | .returned .lerr => "err" | _ => "to")
   | "x" =>
     let i := quiesce cfg { i with s := step cfg (step cfg i.s .ctxCancel) .afterFunc }
     (i, match i.s.acc with | .returned .closed => "closed" | .returned .err => "err" | _ => "hang")
@@ -232,6 +235,7 @@ structure Book where
   shutdownOk : Bool := false
   shutdownCalled : Bool := false
   shutdownPending : Bool := false
+  shutdownAgain : Bool := false
   /-- connection held inside the accept callback -/
   held : Option Nat := none
   /-- connections held in the tracer -/
@@ -323,8 +327,14 @@ def judgeC17 (op : SrvOp) (out : String) : Expect :=
       | "d" => { b with live := b.live.erase k, busy := b.busy.erase k }
       | "sh" | "shx" =>
         -- the first sweep closes every connection that is not handling a request
-        { b with shutdownCalled := true, shutdownPending := true, live := b.live.filter b.busy.contains }
+        { b with shutdownAgain := b.shutdownCalled, shutdownCalled := true, shutdownPending := true,
+                 live := b.live.filter b.busy.contains }
       | "j" =>
+        if o == "err" && b.shutdownAgain then
+          -- a repeated call reports the error of closing the closed listener, after it has swept everything
+          let b := if !b.busy.isEmpty then b.fail "the repeated Shutdown returned while a handler was still running" else b
+          { b with shutdownPending := false, live := [], limbo := [] }
+        else
         if o == "nil" then
           let b := if !b.busy.isEmpty then b.fail "Shutdown returned successfully while a handler was still running" else b
           { b with shutdownOk := true, shutdownPending := false, live := [], limbo := [] }
@@ -357,6 +367,7 @@ def judgeC17 (op : SrvOp) (out : String) : Expect :=
 
 def SrvOp.judge (prop : String) (op : SrvOp) (out : String) : Expect :=
   -- C16 ("a panicking handler never terminates the process or disturbs other connections") uses the same oracle
-  if prop == "C17" || prop == "C16" then judgeC17 op out else .noPanic
+  -- C15: "bytes left over from one request never corrupt the handling of the next" - also across connections
+  if prop == "C17" || prop == "C16" || prop == "C15" then judgeC17 op out else .noPanic
 
 end Modbus.Driver
